@@ -3,13 +3,20 @@ with scripted rail actions, a prompt-recording fake LLM and deterministic embedd
 
 A *case* (JSON):
   {"ver": "1.0"|"2.x", "dialog": bool, "exc": bool, "in": [rail ids in configured order], "out": [rail ids],
-   "carry": "messages"|"state"|"fresh" (messages, but no events cache: stateless deployment), "trail": null|"system"|"context" (1.0: a message of that role follows the user message in every request), "gen": "std"|"pt"|"ptp"|"ptfn"|"single" (1.0 generation mode), "front": bool,
-   "usaid": "something"|"plain"|"regex" (2.x without dialog rails: how the answering flow waits for the user),
+   "carry": "messages"|"state"|"fresh" (messages, but no events cache: stateless deployment)|"stateobj" (2.x: the caller decodes the returned JSON itself and passes a NEW State object to every call)|"liveobj" (2.x: the caller keeps ONE live State object and hands it to every call), "trail": null|"system"|"context" (1.0: a message of that role follows the user message in every request), "gen": "std"|"pt"|"ptp"|"ptfn"|"single" (1.0 generation mode), "front": bool,
+   "usaid": "something"|"plain"|"regex"|"multi" (2.x without dialog rails: how the answering flow waits for the user; multi = two answering flows),
+   "wire": bool (2.x: the returned state goes through json.dumps / json.loads before it is handed back, as on a server; default: the same dict),
    "turns": [{"user": str, "bot": str, "intent": "flow"|"free"|"act",
               "vin":  [[id, verdict]..], "vout": [[id, verdict]..], "act_fault": bool, "retr_fault": bool,
               "exc_kind": one of EXC_KINDS (the exception value every scripted fault of the turn raises),
               "opts": null | {"input": bool, "output": bool} (1.0: `options={"rails": {...}}` of THIS call; null = the call passes no options)}]}
   verdict = "a" (accept) | "r" (reject) | ["w", text] (rewrite) | "f" (the rail's action raises)
+          | "x" (the LLM call made by the rail's action fails: `LLMCallException`, which the dispatcher FORWARDS out of `generate`)
+  propagating failures of a turn (the call raises; the caller then goes on from the last state it was GIVEN - the state JSON /
+  its own message list - on the same LLMRails instance, see `_run`):
+    "x" verdicts; "llm_x": n (the n-th dialog / generation LLM call of the turn finds the provider down -> LLMCallException);
+    "cancel": n (the task is cancelled at the n-th recorded step of the turn: CancelledError surfaces at that await point)
+  "route": "a"|"b" (2.x, "usaid": "multi": which of the two answering flows the user text is addressed to)
 
 An *observation*: per turn {"steps": [...], "reply": {"role", "content"|"exc"}, "raised": None|str}
   step = ["rail", "in"|"out", i, text_seen] | ["llm", task, prompt] | ["act", name]
@@ -18,6 +25,7 @@ import asyncio
 import contextlib
 import hashlib
 import io
+import json
 import logging
 import os
 import sys
@@ -256,9 +264,29 @@ USAID_FORMS = {
 }
 
 
+MULTI_MAIN = """
+flow main
+  activate answering a
+  activate answering b
+
+flow answering a
+  user said "%s"
+  $answer = ..."Answer the question of the user."
+  bot say $answer
+
+flow answering b
+  user said (regex("(?i).*%s.*"))
+  $answer = ..."Answer the question of the user."
+  bot say $answer
+""" % (PLAIN_TEXT, REGEX_WORD)
+
+
 def v2_colang(case):
     parts = ["import core", "import guardrails", "import llm", ""]
-    if case["dialog"]:
+    if not case["dialog"] and case.get("usaid") == "multi":
+        # two answering flows (a conversation in which a turn is answered by another flow than the previous one)
+        parts.append(MULTI_MAIN)
+    elif case["dialog"]:
         parts.append("""
 flow main
   activate llm continuation
@@ -322,6 +350,25 @@ def _raise_fault(where):
     raise ScriptedFault(f"scripted fault in {where}")
 
 
+class ProviderDown(ConnectionError):
+    """What the (fake) LLM provider raises when it is unreachable; `llm_call` wraps it into `LLMCallException`."""
+
+
+def _llm_call_exception(where):
+    from nemoguardrails.actions.llm.utils import LLMCallException
+
+    return LLMCallException(ProviderDown(f"scripted provider outage in {where}"))
+
+
+def _step_hook():
+    """Called right after a step (rail / llm / act) was recorded: `"cancel": n` of the turn cancels the task at the n-th step
+    (what `asyncio.wait_for` / a disconnecting client does; the CancelledError surfaces at the await point the call is in)."""
+    t = _STATE["script"] or {}
+    n = t.get("cancel")
+    if n is not None and len(_STATE["rec"]) - 1 == n:
+        raise asyncio.CancelledError()
+
+
 def _verdict(kind, i):
     t = _STATE["script"]
     for rid, v in (t.get("vin") if kind == "in" else t.get("vout")) or []:
@@ -345,9 +392,14 @@ def _make_check(kind, i):
         var = "user_message" if kind == "in" else "bot_message"
         text = (context or {}).get(var)
         _STATE["rec"].append(["rail", kind, i, text if isinstance(text, (str, type(None))) else repr(text)])
+        _step_hook()
         v = _verdict(kind, i)
         if v == "f":
             _raise_fault(f"{kind} rail {i}")
+        if v == "x":
+            # the rail's action asks an LLM and the provider is down: `llm_call` raises LLMCallException, which
+            # `execute_action` re-raises on purpose - it leaves `generate` in the middle of the turn
+            raise _llm_call_exception(f"{kind} rail {i}")
         return v != "r"
 
     if i % 2 == 0:
@@ -369,6 +421,7 @@ def _make_note(kind, i):
         if seen != text:
             seen = f"<flow-side {seen!r} / action-side {text!r}>"
         _STATE["rec"].append(["rail", kind, i, seen if isinstance(seen, (str, type(None))) else repr(seen)])
+        _step_hook()
         return True
 
     note.__name__ = f"rail_{kind}_{i}_note"
@@ -393,6 +446,7 @@ class DialogAct:
 
     def run(self, **kwargs):
         _STATE["rec"].append(["act", "dialog_act"])
+        _step_hook()
         if _STATE["script"].get("act_fault"):
             _raise_fault("dialog action")
         return True
@@ -403,6 +457,7 @@ async def retrieve_relevant_chunks():
     from nemoguardrails.actions.actions import ActionResult
 
     _STATE["rec"].append(["act", "retrieve"])
+    _step_hook()
     if _STATE["script"].get("retr_fault"):
         _raise_fault("retrieve_relevant_chunks")
     return ActionResult(return_value="", context_updates={"relevant_chunks": ""})
@@ -426,7 +481,14 @@ def _make_llm():
                 p = prompt if isinstance(prompt, str) else str(prompt)
                 seen = p.split(pre, 1)[1].rsplit("::END", 1)[0] if pre in p else None
                 _STATE["rec"][-1] = ["rail", kind, SC_ID, seen]
+                _step_hook()
+                if _verdict(kind, SC_ID) == "x":
+                    raise ProviderDown(f"scripted provider outage in self check {kind}put")  # -> LLMCallException in llm_call
                 return "Yes" if _verdict(kind, SC_ID) == "r" else "No"
+            _step_hook()
+            n_gen = sum(1 for s in _STATE["rec"] if s[0] == "llm") - 1
+            if t.get("llm_x") is not None and n_gen == t["llm_x"]:
+                raise ProviderDown(f"scripted provider outage in LLM call {n_gen} ({task})")
             if task == "generate_user_intent":
                 return "  ask " + t.get("intent", "free")
             if task == "generate_next_steps":
@@ -464,6 +526,11 @@ def _q(s):
 def config_key(case):
     return (case["ver"], bool(case["dialog"]), bool(case["exc"]), tuple(case["in"]), tuple(case["out"]), bool(case.get("sc")), case.get("gen", "std") if case["ver"] == "1.0" else "std",
             case.get("usaid", "something") if case["ver"] == "2.x" and not case["dialog"] else "-")
+
+
+def propagating(t):
+    """the turn scripts a failure that leaves `generate` by design (LLMCallException / cancellation)"""
+    return t.get("llm_x") is not None or t.get("cancel") is not None or any(v == "x" for key in ("vin", "vout") for _, v in t.get(key) or [])
 
 
 def get_rails(case):
@@ -510,6 +577,9 @@ def get_rails(case):
                 async def passthrough_fn(context: dict, events: list):
                     # stands in for the LLM call; like RunnableRails' function it reads the text from the context
                     _STATE["rec"].append(["llm", replaced, str((context or {}).get("user_message"))])
+                    _step_hook()
+                    if _STATE["script"].get("llm_x") is not None and sum(1 for s in _STATE["rec"] if s[0] == "llm") - 1 == _STATE["script"]["llm_x"]:
+                        raise _llm_call_exception("passthrough function")
                     return _STATE["script"]["bot"], {"passthrough": True}
 
                 rails.llm_generation_actions.passthrough_fn = passthrough_fn
@@ -523,6 +593,20 @@ def get_rails(case):
         tm.render_task_prompt = render
         if case["ver"] == "2.x":
             rails.runtime.disable_async_execution = True
+            # the State OBJECT every call works on (`process_events` mutates it in place): recorded so that the call-level model's
+            # "a new object for every call" and "the object a failed call leaves behind" can be compared with the real thing
+            orig_pe = rails.runtime.process_events
+
+            async def process_events(events, state=None, **kw):
+                obj = state if state is not None and not isinstance(state, dict) else None
+                _STATE["obj"] = obj
+                if obj is not None:
+                    if any(obj is o for o in _STATE["objs"]) and not _STATE.get("live"):
+                        _STATE["reused"] = True
+                    _STATE["objs"].append(obj)
+                return await orig_pe(events, state=state, **kw)
+
+            rails.runtime.process_events = process_events
     _RAILS[key] = rails
     return rails
 
@@ -568,9 +652,14 @@ async def _run(case):
     trail = []
     if case.get("trail") and case["ver"] == "1.0":
         trail = [TRAIL_SYSTEM] if case["trail"] == "system" else [TRAIL_CONTEXT]
+    _STATE["objs"] = []
+    _STATE["live"] = case.get("carry") == "liveobj"
+    live = None
     for t in case["turns"]:
         _STATE["script"] = t
         _STATE["rec"] = rec = []
+        _STATE["obj"] = None
+        _STATE["reused"] = False
         o = {"steps": rec, "reply": None, "raised": None}
         kw = {}
         if t.get("opts") is not None and case["ver"] == "1.0" and gen != "ptp":
@@ -608,16 +697,50 @@ async def _run(case):
                         else:
                             messages.append(dict(res) if isinstance(res, dict) else {"role": "assistant", "content": rep["content"]})
                 else:
-                    res = await rails.generate_async(messages=front + [{"role": "user", "content": t["user"]}] + trail, state=state, **kw)
+                    given = state
+                    if case.get("carry") == "liveobj" and case["ver"] == "2.x" and live is not None:
+                        # the caller keeps ONE live State object (as the chat CLI does with `process_events`) and hands the object to
+                        # every call; the call mutates it in place - also when it fails
+                        given = live
+                    elif case.get("carry") == "stateobj" and case["ver"] == "2.x" and isinstance(state, dict) and state.get("version") == "2.x":
+                        # a caller that decodes the JSON it was given itself (a new object for every call) and passes the object
+                        from nemoguardrails.colang.v2_x.runtime.serialization import json_to_state
+
+                        given = json_to_state(state["state"])
+                    res = await rails.generate_async(messages=front + [{"role": "user", "content": t["user"]}] + trail, state=given, **kw)
                     rep = _canon_reply(res)
                     state = res.state
+                    if case.get("carry") == "liveobj" and case["ver"] == "2.x" and live is None and isinstance(state, dict) and state.get("version") == "2.x":
+                        from nemoguardrails.colang.v2_x.runtime.serialization import json_to_state
+
+                        live = json_to_state(state["state"])
+                    if case.get("wire") and isinstance(state, dict) and state.get("version") == "2.x":
+                        state = json.loads(json.dumps(state))  # the state travels like on a server: as a JSON document
             o["reply"] = rep
         except BaseException as e:  # noqa  -- `generate` must return normally (C03); record what escaped
             o["raised"] = f"{type(e).__name__}: {e}"[:300]
             obs.append(o)
+            _note_object(o)
+            if propagating(t):
+                # a failure that leaves `generate` by design (LLM provider down / cancelled request): the caller got nothing
+                # back, so it still holds the state of the last completed call (`state` / `messages` were not touched) and the
+                # conversation GOES ON from there, on the same LLMRails instance
+                continue
             break
+        _note_object(o)
         obs.append(o)
+    _STATE["objs"] = []
     return obs
+
+
+def _note_object(o):
+    """2.x: what became of the State object the call worked on"""
+    if _STATE.get("reused"):
+        o["reused_obj"] = True  # the call worked on an object an EARLIER call of the conversation had worked on
+    obj = _STATE.get("obj")
+    if obj is not None and o["raised"]:
+        ctx = getattr(obj, "context", None) or {}
+        o["left"] = {"orip": bool(ctx.get("output_rails_in_progress")), "talking": bool(ctx.get("bot_talking_state"))}
 
 
 def run_conversation(case):
